@@ -87,3 +87,14 @@ package consensus_vote
 //@   ensures[c25-threshold] err == nil && !done0 ==> (r0 <==> gnum >= (2*gsum+2)/3)
 //@   -- only an address derived from the key of a current consensus-status pool member is accepted as voter
 //@   ensures[c25-validator-only] err == nil && !done0 ==> isVal
+
+// ---- C04: decoders reject malformed bytes without panicking (generated by /verif/tools/gen_decoder_contracts.py, reviewed) ----
+//@ func (*VoteInfo).Deserialization
+//@   property C04
+//@   mode abstract
+//@   nopanic on
+//@   requires this != nil && source != nil && source.off <= uint64(len(source.s))
+//@   modifies *
+//@   ensures source.off <= uint64(len(source.s))
+//@   loop 1 invariant this != nil && source != nil && source.off <= uint64(len(source.s))
+
